@@ -80,3 +80,35 @@ def run(ctx, props_file=None, judge='judge_c18', imports=fc.IMPORTS, p_then=0.1,
     ctx.cov['mode_histogram'] = {m: sum(1 for c, _, _ in kept if c['mode'] == m) for m in ('ls', 'im', 'nt')}
     ctx.sample({'case': fc.line_of(cases[0])[:200], 'impl': outs[0][:400]})
     ctx.phase('correspond')
+    # ---- implementation-only probes: futex waits that return although nobody woke them (EINTR / spurious wake-up; the kernel allows both).
+    # The model has no such step, so these runs are judged on their results alone (judge mode 2: the executable property, no trace comparison).
+    ns = 80 if ctx.quick else 2000
+    sp = []
+    while len(sp) < ns:
+        c = fc.gen_case(r, p_then, force_mode='ls')
+        if c['orphan']:
+            continue
+        c['tmo'] = 2
+        c['judge_mode'] = 2
+        sp.append(c)
+    souts = ls_common.run_cases(exe, [fc.line_of(c) for c in sp])
+    sterms, skept = [], []
+    for c, o in zip(sp, souts):
+        p = ls_common.parse_vsched(o, fc.SITES, fc.TAGS)
+        if p is None or 'error' in p:
+            ctx.broken.append('harness output unreadable for %s: %s' % (fc.line_of(c), (o or '')[:200]))
+            continue
+        sterms.append(fc.term_of(c, p)); skept.append((c, p, o))
+    sverd = ls_common.judge_parallel(ctx, imports, judge, sterms, shard_size=60)
+    if sverd is None:
+        ctx.broken.append('spurious-wake probes (%s): the judge no longer evaluates' % ctx.pid)
+    else:
+        i_sp = fc.SITES.index('futex.spurious')
+        for v, (c, p, o) in zip(sverd, skept):
+            if v == 2:
+                ctx.violation('%s fails on the implementation when a futex wait returns spuriously: %s -> %s' % (ctx.pid, fc.line_of(c), o[:400]),
+                              {'case': fc.line_of(c), 'output': o, 'cmd': 'echo "<case>" | build/harness/h_future-*'})
+        ctx.cov['spurious_wake_probes'] = {'cases': len(skept), 'with_spurious_return': sum(1 for c, p, o in skept if any(st == i_sp for _, st in p['steps'])),
+                                           'property_fails': sum(1 for v in sverd if v == 2)}
+    ctx.cov['evaluations'] += len(sp)
+    ctx.phase('spurious')
